@@ -47,6 +47,12 @@ type World struct {
 	cdc       codec.BinaryCodec
 	k         *keeper.Keeper
 	discard   bool // the current delivery runs on a branch that will be thrown away
+
+	// an open multi-message transaction (baseapp.runTx): ctx is its branch, baseCtx the chain state to return to
+	inBatch     bool
+	batchFailed bool
+	baseCtx     sdk.Context
+	batchCommit func()
 	msgSrv    types.MsgServer
 
 	mintingDenom string
@@ -258,8 +264,38 @@ func (w *World) Fund(addr []byte, denom string, amt math.Int) {
 	w.ledgerSet(w.ctx, supKey(denom), w.ledgerGet(w.ctx, supKey(denom)).Add(amt))
 }
 
+// Begin opens a multi-message transaction: every op until End runs on one branch of the chain state.
+func (w *World) Begin() string {
+	if w.inBatch {
+		return "out=ok open=1"
+	}
+	w.baseCtx = w.ctx
+	c, commit := w.ctx.CacheContext()
+	w.ctx, w.batchCommit, w.inBatch, w.batchFailed = c, commit, true, false
+	return "out=ok"
+}
+
+// End closes it: the branch is written back iff every message delivered on it succeeded.
+func (w *World) End() string {
+	if !w.inBatch {
+		return "out=none"
+	}
+	w.ctx, w.inBatch = w.baseCtx, false
+	commit := w.batchCommit
+	w.batchCommit = nil
+	if w.batchFailed {
+		return "out=discarded"
+	}
+	commit()
+	return "out=committed"
+}
+
 // Commit commits the multistore and returns the app hash (C18).
 func (w *World) Commit() []byte {
+	if w.inBatch {
+		// a block is not committed in the middle of a transaction
+		return nil
+	}
 	id := w.cms.Commit()
 	w.ctx = sdk.NewContext(w.cms, cmtproto.Header{}, false, log.NewNopLogger())
 	return id.Hash
